@@ -16,7 +16,7 @@ META = {
              "d 2-4, cycles 0-8, full and simplified; multi-round experiment circuits); distinct by structural hash; non-trivial = nesting depth >= 2"),
     "assumptions": ["for generated programs only the multiset clause is asserted (the statement promises order/schedule only for library circuits)"],
     "floors": {
-        "quick": {"flatten_calls": 2500, "second_flatten_checks": 2500, "library_flatten_checks": 50, "leaves_compared": 30000, "deep_flatten_depth": 1300},
+        "quick": {"flatten_calls": 2500, "second_flatten_checks": 2500, "library_flatten_checks": 50, "library_unobserved_flatten_checks": 50, "leaves_compared": 30000, "deep_flatten_depth": 1300},
         "thorough": {"flatten_calls": 30000, "second_flatten_checks": 30000, "library_flatten_checks": 150},
     },
 }
@@ -143,6 +143,23 @@ def check_library(inp: Dict[str, Any], acc: Acc):
             acc.finding(f"flatten/library-stim/{ctor}", f"flattening a modifier-applied library circuit ({ctor} constructor) changed the exported Stim program", case, None)
         if flat.composite_operations:
             acc.finding("flatten/sub-circuit-left", "a sub-circuit remains after flatten() (library)", case, None)
+        # ---- twin: a second instance is unrolled and flattened WITHOUT being observed in between (the call pattern of the
+        #      multi-round constructor); its program must be the one observed before flattening on the first instance
+        if inp.get("multi_round"):
+            twin = construct_repetition_code_multi_round_circuit(
+                qec_cycles=inp["rounds"], description=libgen.description_of(inp), initial_state=libgen.initial_state_of(inp))
+        else:
+            twin = libgen.construct(inp)
+        c = lib_snapshot(twin.apply_modifiers().flatten())
+        acc.count("library_unobserved_flatten_checks")
+        for key, what in (("listing", "listing order"), ("shadow", "schedule"), ("acquisition", "acquisition indices"), ("stim", "exported Stim program")):
+            if a[key] != c[key]:
+                acc.finding(f"flatten/library-unobserved-{key}/{ctor}",
+                            f"flattening a modifier-applied library circuit ({ctor} constructor) that was not listed before gives a different {what} "
+                            "than the circuit had before flattening", case, None)
+                break
+        if c["raw"] != c["shadow"]:
+            acc.finding("stale-memo/flatten", "reported times after an unobserved flatten differ from the memo-free schedule", case, None)
     memo_shadow.drain()
 
 
